@@ -1611,7 +1611,16 @@ private:
     }
     else
     {
-      _peerIndex.erase(pkey);
+      // Drop the peer-index entry only if it still maps to THIS session. A
+      // connectViaListener() session to a peer that already has a receiving
+      // session never owned the entry (viaDo leaves the index pointing at the
+      // existing session), so closing it must not unmap that other, still-open
+      // session - otherwise the peer's next datagram is "accepted" a second time.
+      auto pit = _peerIndex.find(pkey);
+      if (pit != _peerIndex.end() && pit->second == sid)
+      {
+        _peerIndex.erase(pit);
+      }
     }
 
     _atomicStats.closed++;
